@@ -27,8 +27,12 @@ CMP_MODE = DM_MOD | DM_NOSECMOD
 KEY_MODE = DM_MOD | DM_RESET | DM_ANNOT
 
 
-def ops_alphabet(full=True):
+def ops_alphabet(full=True, nocase=False):
     O = []
+    if nocase:
+        # a case-insensitive context: names and titles that differ in letter case only name the same thing
+        O += [('addtsec', b'mt', b'A'), ('addtsec', b'MT', b'b'), ('rmtsec', b'mt', b'A'), ('rmtsec', b'mt', b'B'), ('rmsec', b'mt=A'),
+              ('set', 'int', b'MT=a|X', 8, None), ('set', 'int', b'mt=A|x', 9, None), ('set', 'int', b'IL', 7, 1), ('setmulti', b'Il', [b'3'])]
     # scalar and indexed setters
     for idx in (None, 0, 1, 5):
         O.append(('set', 'int', b'i', 7, idx))
@@ -255,5 +259,5 @@ def run_bfs(ck, schema, flags, starts, ops, depth, hygiene=False, setup_lines=()
             frontier = sorted(nxt, key=lambda h: repr(h))
             if not frontier:
                 break
-    ck.cov['states'] = len(seen)
+    ck.cov['states'] = ck.cov.get('states', 0) + len(seen)
     return len(seen)
